@@ -33,7 +33,7 @@ ints = st.one_of(st.sampled_from([0, 1, -1, 2, -2, 7, 100]), st.integers(-1000, 
 floats = st.one_of(st.integers(-4000, 4000).map(lambda k: k / 8.0), st.integers(-10 ** 6, 10 ** 6).map(lambda k: k / 100.0),
                    st.tuples(st.floats(-9, 9), st.booleans()).map(lambda t: (10.0 ** t[0]) * (-1 if t[1] else 1)), st.sampled_from([0.5, -0.5, 0.1, 2.5]))
 numtext = st.one_of(st.integers(-999, 999).map(str), st.integers(0, 99).map(lambda k: '+%d' % k),
-                    st.tuples(st.integers(-99, 99), st.integers(0, 99)).map(lambda t: '%d.%02d' % t), st.integers(1, 99).map(lambda k: '.%d' % k), st.sampled_from(['12', '-4', '+3', '1.5', '.5', '0']))
+                    st.tuples(st.integers(-99, 99), st.integers(0, 99)).map(lambda t: '%d.%02d' % t), st.integers(1, 99).map(lambda k: '.%d' % k), st.sampled_from(['12', '-4', '+3', '1.5', '.5', '0']), st.sampled_from(['1e3', '2.5E+16', '1E-05', '1e+05', '-4e2', '2.5e+16', '1.5E3', '7e0']))
 badtext = st.one_of(st.just(''), st.text(st.sampled_from('qxzkwvg_!?'), min_size=1, max_size=8).filter(lambda s: s[0] not in '_'), st.sampled_from(['qxz', 'k!', 'wv?g']),
                      # text that contains a number without spelling one (and that a lenient date reader might be tempted by)
                      st.sampled_from(['x1', '12abc', '3 apples', '10 km', 'Q3', 'room 5', 'v2.0', '#5', 'abc123', 'a1b2', '5x', 'no 7', '7up']))
